@@ -3,7 +3,7 @@ CONSTANTS
   Alphabet = {97, 10}
   MaxStream = 4
   MaxChunk = 2
-  ReadIds = {1, 3, 4, 7, 10, 11, 13, 19, 23, 25}
+  ReadIds = {1, 3, 4, 7, 11, 13, 19, 25}
   WriteLens = {}
   MaxWrites = 0
   Grants = {}
